@@ -362,8 +362,8 @@ impl<'a> Iterator for CommentIter<'a> {
                 self.src = if self.src.starts_with("\r\n") {
                     &self.src[2..]
                 } else {
-                    // \n
-                    &self.src[1..]
+                    // `\n`, or nothing when the comment ends the source without a newline
+                    self.src.get(1..).unwrap_or("")
                 };
                 Some(comment_line)
             } else if self.src.starts_with("/*") {
